@@ -508,6 +508,11 @@ impl Shadow {
         let me = crate::sched::my_tid();
         sim().drain_frees(me);
         let o = id as u32;
+        if id >= self.objs.len() as u64 {
+            // the payload's id field is garbage: the "object" is memory that was freed (poisoned)
+            let det = format!("pop_edges ran on the block at {:#x} whose payload is not a live object (id field reads {:#x}): destructed again after its block was freed", block, id);
+            sim().violation("C04,C01", "destruct-of-freed-memory", "destruct-of-freed-memory", &det);
+        }
         if (o as usize) < self.objs.len() && !self.objs[o as usize].registered {
             // destructed before the creating call returned (zero-owner bulk constructors)
             self.register(o, block, state_addr, cells, 0);
@@ -584,6 +589,10 @@ impl Shadow {
     fn on_drop(&mut self, id: u64, wcell: usize) {
         let o = id as u32;
         sim().fold(0xD1, id);
+        if id >= self.objs.len() as u64 {
+            let det = format!("a payload destructor ran on memory that is not a live object (id field reads {:#x})", id);
+            sim().violation("C04,C01", "destruct-of-freed-memory", "destruct-of-freed-memory", &det);
+        }
         let ob = &mut self.objs[o as usize];
         if ob.drop > 0 {
             sim().violation("C04", "double-drop", "double-drop", &format!("destructor of #{} ran twice", o));
